@@ -36,11 +36,9 @@ theorem C19_fn_check_message_length (n : Nat) :
          | .ok u => .ok u
          | .error e => .error (failOf e)) := by
   unfold Gen.FnMsgs.check_message_length checkMessageLength
-  by_cases h1 : n < 2
-  · simp [h1, Rs.fail, failOf]
-  · by_cases h2 : n > 131072
-    · simp [h1, h2, Rs.fail, failOf, maxMessageSize]
-    · simp [h1, h2, maxMessageSize]
+  -- by cases on the two conditions, not on the text: the order of the two `if`s in the source does not matter
+  by_cases h1 : n < 2 <;> by_cases h2 : n > 131072 <;>
+    simp [h1, h2, Rs.fail, failOf, maxMessageSize] <;> omega
 
 theorem C19_fn_length_ok_iff (maxMsg n : Nat) :
     checkMessageLength maxMsg n = .ok () ↔ 2 ≤ n ∧ n ≤ maxMsg := by
